@@ -82,14 +82,14 @@ func (p plainDesc) val() string {
 }
 
 type edealDesc struct {
-	sigKey, sigBytes, dhBytes int
-	dhPoint                   int // -1: does not decode
-	nonceLen, nonce           int
+	sigKey, sigBytes, dhBytes     int
+	dhPoint                       int // -1: does not decode
+	nonceLen, nonce               int
 	sealEph, sealRcpt, sealDealer int
-	sealMembers               []int
-	sealNonce                 int
-	intact                    bool
-	plain                     *plainDesc
+	sealMembers                   []int
+	sealNonce                     int
+	intact                        bool
+	plain                         *plainDesc
 }
 
 func (e edealDesc) val() string {
@@ -471,6 +471,18 @@ func genC08(rng *hx.Rng, tier string, w *hx.Writer) error {
 		}, "no-approve", "crafted-polynomial-zero-share")
 		mk(func(p *plainDesc) { p.idx = (r + 1) % n; p.share = refEval(dl.coeffs, p.idx, BnQ) }, "reject", "index-of-other-member")
 		mk(func(p *plainDesc) { p.idx = n + 3 }, "reject", "index-out-of-range")
+		if r != 0 {
+			mk(func(p *plainDesc) { p.idx = 0; p.share = refEval(dl.coeffs, 0, BnQ) }, "reject", "index-zero-for-other-member")
+		}
+		// indices that agree with the recipient's own in the low 32 (16, 8) bits, the share being the
+		// committed polynomial at THAT index
+		for _, off := range []int64{1 << 32, -(1 << 32), 5 << 32, 1 << 16, 1 << 8, 1 << 31} {
+			off := off
+			mk(func(p *plainDesc) {
+				p.idx = int(int64(r) + off)
+				p.share = refEval(dl.coeffs, int(int64(r)+off), BnQ)
+			}, "reject", "index-equal-modulo-word")
+		}
 		mk(func(p *plainDesc) {
 			c := append([]*big.Int{}, p.commits...)
 			c[rng.Intn(len(c))] = rng.BigBelow(BnQ)
